@@ -126,6 +126,21 @@ func run(args []string) int {
 		env = append(env, "VERIF_CLI="+cli)
 	}
 	env = append(env, "VERIF_SELF="+bin, "VERIF_SCRATCH="+work)
+	// native fuzz stages need a binary built with coverage instrumentation
+	fuzzBin := ""
+	if tier == "thorough" && replayPath == "" {
+		for _, st := range prop.Stages {
+			if st.Fuzz != "" && st.Shards[1] > 0 {
+				fuzzBin = filepath.Join(work, "props.fuzz")
+			}
+		}
+		if fuzzBin != "" {
+			if out, err := runCmd(filepath.Join(verifRoot, "harness"), env, 20*time.Minute, "go", "test", "-c", "-vet=off", "-fuzz=Fuzz", "-o", fuzzBin, "./props"); err != nil {
+				fmt.Fprintf(os.Stderr, "BUILD FAILED (fuzz binary):\n%s\n", out)
+				return 2
+			}
+		}
+	}
 
 	// ---- explicit replay ----
 	if replayPath != "" {
@@ -206,7 +221,11 @@ func run(args []string) int {
 		go func(ji int, j job) {
 			defer wg.Done()
 			defer func() { <-sem }()
-			results[ji] = runShard(bin, work, env, id, j, ti, seed)
+			b := bin
+			if j.st.Fuzz != "" {
+				b = fuzzBin
+			}
+			results[ji] = runShard(b, work, env, id, j, ti, seed)
 		}(ji, j)
 	}
 	wg.Wait()
@@ -382,7 +401,12 @@ func runCmdKill(dir string, env []string, timeout time.Duration, name string, ar
 }
 
 func tail(s string, n int) string {
-	lines := strings.Split(strings.TrimRight(s, "\n"), "\n")
+	var lines []string
+	for _, l := range strings.Split(strings.TrimRight(s, "\n"), "\n") {
+		if !strings.Contains(l, "[rapid] draw ") {
+			lines = append(lines, l)
+		}
+	}
 	if len(lines) > n {
 		lines = lines[len(lines)-n:]
 	}
